@@ -57,6 +57,11 @@ func (c08BumpOnce) Exit(n *ast.Node) {
 	}
 }
 
+// c08FinePair: the pairs of Compile jobs (indices into c08CompileJobs) explored with two preemptions at method granularity
+// in the thorough tier: both operator tables on one operator, the two folded empty ranges, the two failing folds, the
+// shared option slice with itself, the constant call with and without ConstExpr, lenient and strict undefined names.
+var c08FinePair = map[[2]int]bool{{0, 7}: true, {1, 2}: true, {4, 5}: true, {6, 6}: true, {3, 9}: true, {10, 12}: true, {0, 0}: true, {1, 1}: true}
+
 // c08SharedLists: option slices handed to every Compile call as they are; entry 1 of each is nil and must stay nil.
 var c08SharedLists [][]expr.Option
 
@@ -232,8 +237,8 @@ func c08CompileScenarios(r *report.Run, order *int64) (schedules, steps int64, c
 			}
 			if ps.fine {
 				bound = 1 // about 10x more scheduling points per thread: every single preemption (thorough: two, on the pairs that share option values)
-				if r.Tier == "thorough" && (combo[0] <= 7 || combo[0] == combo[1]) {
-					bound = 2
+				if r.Tier == "thorough" && c08FinePair[[2]int{combo[0], combo[1]}] {
+					bound = 2 // two preemptions for the pairs of jobs that share option values or package-level constants
 				}
 			}
 			combo := combo
